@@ -45,3 +45,46 @@ Print Assumptions C01_stream_preserves_newest.
 Example C01_nonvacuous :
   check_inv_sv LookupExample.sv0 = true /\ filter_sound LookupExample.flt0 LookupExample.sv0.
 Proof. split; [exact LookupExample.sv0_inv | exact LookupExample.flt0_sound]. Qed.
+
+(** (4) UNBOUNDED: the model's own tree state machine (Model/Machine.v: writes, rotation,
+    flush through the compaction stream with table cutting, compaction of any choice
+    satisfying the decidable placement / contiguity / eviction conditions, moves, history
+    GC), from the empty tree, for EVERY operation list: every reachable latest superversion
+    passes the structural invariant ... *)
+From LsmV Require Import Model.Machine Proofs.Machine Model.Snapshot Model.History Proofs.Snapshot.
+Theorem C01_machine_invariant : forall ops, mops_ok minit ops = true ->
+  let st := mrun minit ops in
+  hinv (hs st) /\ (exists sv, latest (hist (hs st)) = Some sv) /\
+  (forall sv, latest (hist (hs st)) = Some sv ->
+     check_inv_sv sv = true /\ uniq (content sv) /\
+     (forall t, In t (all_tables (ver sv)) -> tid t < next_tid st) /\
+     (forall m, In m (all_mts sv) -> mid m < next_mid st) /\
+     (forall m, In m (sealed sv) -> mid m <> mid (active sv)) /\
+     (forall e, In e (content sv) -> In e (wlog st) /\ seq e < ctr (hs st))) /\
+  (forall e, In e (wlog st) -> seq e < ctr (hs st)) /\
+  NoDup (map seq (wlog st)) /\ uniq (wlog st) /\ ctr (hs st) <= SEQ_LIMIT.
+Proof. exact machine_inv. Qed.
+Print Assumptions C01_machine_invariant.
+
+(** ... and every point read at the newest snapshot returns exactly what the ordered map
+    replaying the same writes returns (histories of inserts and strong deletes) *)
+Theorem C01_machine_point_reads : forall ops, mops_ok minit ops = true ->
+  (forall k t v, In (MWrite k t v) ops -> t <> WeakTomb) ->
+  let st := mrun minit ops in forall sv, latest (hist (hs st)) = Some sv ->
+  forall flt, filter_sound flt sv ->
+  forall k, sv_get flt sv k SEQ_MAX = spec_get (wlog st) k SEQ_MAX.
+Proof. exact machine_point_reads. Qed.
+Print Assumptions C01_machine_point_reads.
+
+(** the major strategy's choice (all tables into the last level) always satisfies the
+    side conditions *)
+Theorem C01_major_choice_ok : forall st l W cuts, minv st -> latest (hist (hs st)) = Some l ->
+  all_tables (ver l) <> [] -> seq_avail st = true ->
+  let ids := map tid (all_tables (ver l)) in
+  cuts_ok cuts (compact_out W last_level (ver l) ids) = true ->
+  mop_ok st (MCompact ids last_level W cuts) = true.
+Proof. exact major_choice_ok. Qed.
+Print Assumptions C01_major_choice_ok.
+
+Example C01_machine_nonvacuous : mops_ok minit MachineExample.ops = true.
+Proof. vm_compute. reflexivity. Qed.
